@@ -36,9 +36,9 @@ def parseAccess (s : String) : Option (List (Nat × List Nat)) :=
 def step : List String → String
   | ["tx", typ, chain, nonce, gas, gp, tip, cap, to, value, data, access, v, r, s, base] =>
     match typ.toNat?, chain.toNat?, nonce.toNat?, gas.toNat?, gp.toNat?, tip.toNat?, cap.toNat?, value.toNat?,
-          parseAccess access, v.toNat?, r.toNat?, s.toNat?, base.toNat? with
+          parseAccess access, v.toNat?, r.toNat?, s.toNat?, (if base == "nil" then some none else base.toNat?.map some) with
     | some typ, some chain, some nonce, some gas, some gp, some tip, some cap, some value, some access,
-      some v, some r, some s, some base =>
+      some v, some r, some s, some baseO =>
       let toO : Option Nat := if to == "-" then none else to.toNat?
       let t : EthTx := { typ := typ, chainId := (if typ = 0 then 0 else chain),   -- a legacy tx carries its chain id only inside v
                          nonce := nonce, gas := gas, gasPrice := gp, gasTipCap := tip,
@@ -48,7 +48,8 @@ def step : List String → String
       | none => "err:overflow"
       | some p =>
         let rt := if asEth p == t then "1" else "0"
-        s!"ok chain={showOpt p.chainId} gp={showOpt p.gasPrice} tip={showOpt p.gasTipCap} cap={showOpt p.gasFeeCap} amt={showOpt p.amount} to={showOpt p.to} vb={showHex p.v} rb={showHex p.r} sb={showHex p.s} fee={p.fee} cost={p.cost} ep={p.effectiveGasPrice base} ef={p.effectiveFee base} ec={p.effectiveCost base} rt={rt}"
+        let ep := (p.effectiveGasPriceO true baseO).getD 0
+        s!"ok chain={showOpt p.chainId} gp={showOpt p.gasPrice} tip={showOpt p.gasTipCap} cap={showOpt p.gasFeeCap} amt={showOpt p.amount} to={showOpt p.to} vb={showHex p.v} rb={showHex p.r} sb={showHex p.s} fee={p.fee} cost={p.cost} ep={ep} ef={ep * p.gas} ec={ep * p.gas + p.amount.getD 0} rt={rt}"
     | _, _, _, _, _, _, _, _, _, _, _, _, _ => "bad-op"
   | _ => "bad-op"
 
